@@ -123,7 +123,7 @@ def default_scenario(target: Target, **over) -> dict:
         "return_numpy": False,
     }
     for k, v in over.items():
-        if isinstance(v, dict) and isinstance(scn.get(k), dict):
+        if isinstance(v, dict) and isinstance(scn.get(k), dict) and k in ("flow", "train", "checkpoint", "seeds", "kernel"):
             scn[k] = {**scn[k], **v}
         else:
             scn[k] = v
@@ -432,6 +432,12 @@ def aspire_kwargs(scn, model):
     if backend == "simflow":
         if fl.get("alpha", 0) > 0:
             fl["box"] = [[lo, hi] for lo, hi in zip(t.lower, t.upper)]
+        kw.update(fl)
+    elif backend == "flowjax":
+        import jax
+
+        if "key_seed" in fl:
+            fl["key"] = jax.random.key(int(fl.pop("key_seed")))
         kw.update(fl)
     else:
         kw.update(fl)
